@@ -268,7 +268,8 @@ def make_cases(ctx, shapes):
             rng = np.random.default_rng(seed)
             lo, hi = SIZES[size]
             cases.append({"kind": kind, "alg": alg, "mixture": mixture, "ties": ties, "perm": perm, "size": size,
-                          "n": int(rng.integers(lo, hi + 1)) if rep else lo,      # rep 0: the smallest size of the class
+                          # the first repetition of the smallest class sits on the domain boundary (50 + 50)
+                          "n": lo if (rep == 0 and size == "s100") else int(rng.integers(lo, hi + 1)),
                           "family": FAMILIES[int(rng.integers(0, len(FAMILIES)))],
                           "affine": list(AFFINE[int(rng.integers(0, len(AFFINE)))]), "seed": seed})
     # two deliberately out-of-domain estimates (30 targets + 30 decoys): must be accepted vacuously
@@ -419,12 +420,12 @@ def run(ctx):
     if not ctx.quick:
         ctx.model_check("PepContract", "PepContract_thorough.cfg", note="n<=5, values 0..2", timeout=3000)
         ctx.model_check("PepContract", "PepContract_fast_thorough.cfg", note="n<=5", timeout=3000)
-    ctx.model_check("PepContract", "PepContract_asis.cfg", expect_violation="Inv_Aligned",
+    ctx.model_check("PepContract", "PepContract_asis.cfg", workers=4, expect_violation="Inv_Aligned",
                     note="AsIs_SortedReturn (qvality wrapper today): values in descending-score order")
-    ctx.model_check("PepContract", "PepContract_asis_mono.cfg", expect_violation="Inv_Monotone", note="same, Monotone alone")
-    ctx.model_check("PepContract", "PepContract_asis_equi.cfg", expect_violation="Inv_Equivariant", note="same, Equivariant alone")
-    ctx.model_check("PepContract", "PepContract_mut1.cfg", expect_violation="Inv_Monotone", note="seeded fault: wrong direction")
-    ctx.model_check("PepContract", "PepContract_mut2.cfg", expect_violation="Inv_TieEqual", note="seeded fault: tie jitter")
+    ctx.model_check("PepContract", "PepContract_asis_mono.cfg", workers=4, expect_violation="Inv_Monotone", note="same, Monotone alone")
+    ctx.model_check("PepContract", "PepContract_asis_equi.cfg", workers=4, expect_violation="Inv_Equivariant", note="same, Equivariant alone")
+    ctx.model_check("PepContract", "PepContract_mut1.cfg", workers=4, expect_violation="Inv_Monotone", note="seeded fault: wrong direction")
+    ctx.model_check("PepContract", "PepContract_mut2.cfg", workers=4, expect_violation="Inv_TieEqual", note="seeded fault: tie jitter")
     r = ctx.model_check("PepContract", "PepContract_cov.cfg", coverage=True, note="action coverage (n<=3)")
     ctx.require_actions(r, ["PickInput", "PickPerm", "Call", "CallPerm"])
     # ---------------- (G) ----------------
